@@ -3,7 +3,8 @@
 Session.tla (TLC) with the forged-security mutants in the alphabet: AcceptOnlyAuthenticated (the pinned behaviour is
 reproduced by DEV_NoIncomingMacCheck and yields the expected counterexample).  Forgeries.tla (TLC) enumerates the
 complete matrix MAC {valid, zero, random, one bit flipped, absent} x auth flag x msgData {encrypted, clear,
-encrypted under another key} x body {Response, Report} and the verdict the property requires.  Every cell is sent,
+encrypted under another key} x body {Response, Report} and the verdict the property requires, plus the family of
+near-miss MACs (every single-bit, xor-cancelling pair, sum-cancelling pair, rotation, reversal, partial MAC).  Every cell is sent,
 as the only reply, to a pending get / get_many / getnext / getbulk on real sockets for {MD5, SHA-1} x {none, DES,
 AES}; TraceSession.tla verifies the MAC term itself (HMAC interpreted by hashlib on the octets TLC zeroed) and
 requires the call to keep waiting unless the reply is authentic."""
@@ -19,7 +20,7 @@ def matrix(cfgname):
     c = scripts.model_consts(cfgname)
     txt = "CONSTANTS\n  HasAuth = %s\n  HasPriv = %s\n" % ("TRUE" if c["HasAuth"] else "FALSE", "TRUE" if c["HasPriv"] else "FALSE")
     out, res = corpus.generate("Forgeries.tla", ["Session.tla"], txt)
-    return [x for x in out if "forgery" in x], res
+    return [x for x in out if "forgery" in x], res, [x for x in out if "nearmac" in x]
 
 
 def id_case(rec, cfg, agent, op, which):
@@ -64,7 +65,7 @@ def case(rec, cfg, agent, op, f):
     if w is not None:
         req = ag.Request(cfg, w)
         vbs = [(bytes(n) + (bytes([1]) if op in ("getnext", "getbulk") else b""), ("int", 4242)) for n in req.names]
-        kw = dict(mac={"valid": "valid", "zero": "zero", "random": "random", "flipped": "flip", "absent": "absent"}[f["mac"]],
+        kw = dict(mac=f["mac"] if isinstance(f["mac"], dict) else {"valid": "valid", "zero": "zero", "random": "random", "flipped": "flip", "absent": "absent"}[f["mac"]],
                   flag_auth=f["flagAuth"], enc={"ok": "ok", "plain": "plain", "bad": "badkey"}[f["enc"]])
         if f["pdu"] == "report":
             d = agent.reply(cfg, req, [([1, 3, 6, 1, 6, 3, 15, 1, 1, 5, 0], ("counter32", 3))], ptype="report", **kw)
@@ -95,7 +96,7 @@ def run(tier):
     agent = ag.Agent()
     runs = []
     for cn in CFGS:
-        cells, res = matrix(cn)
+        cells, res, near = matrix(cn)
         if res:
             chk.add_tlc(res, "Forgeries.tla %s" % cn)
         if len(cells) != 60:
@@ -108,6 +109,17 @@ def run(tier):
                 authentic = f["mac"] == "valid" and f["flagAuth"] and f["enc"] == ("ok" if std[cn].priv != "none" else "plain")
                 runs.append((a, b, dict(cfg=cn, op=op, forgery=f, verdict=c["verdict"])))
                 chk.case((cn, op, json.dumps(f, sort_keys=True)), nontrivial=not authentic)
+        # near-miss MACs (otherwise authentic Response): 12 single bits, 66 xor-cancelling pairs, 66 sum-cancelling pairs, rotations, partial MACs
+        if len(near) != 12 + 66 + 66 + 4 + 11 + 1 + 11 + 11:
+            raise ToolError("near-miss MAC family incomplete: %d" % len(near))
+        for ni, c in enumerate(near):
+            if not thorough and c["nearmac"]["kind"] in ("pair", "sum") and (ni + SEED) % 2 and (c["nearmac"]["j"] - c["nearmac"]["i"]) % 4:
+                continue           # quick: every pair at word distance, every other one elsewhere
+            f = dict(mac=c["nearmac"], flagAuth=True, enc="ok" if std[cn].priv != "none" else "plain", pdu="response")
+            for op in (["get", "getnext"] if thorough else [["get", "get_many", "getnext", "getbulk"][(ni + SEED) % 4]]):
+                a, b = case(rec, std[cn], agent, op, f)
+                runs.append((a, b, dict(cfg=cn, op=op, forgery=f, verdict=c["verdict"])))
+                chk.case((cn, op, json.dumps(f, sort_keys=True)))
         for which in ("msgid", "reqid", "report-msgid", "both"):
             for op in ("get", "getnext"):
                 a, b = id_case(rec, std[cn], agent, op, which)
@@ -132,7 +144,7 @@ def run(tier):
             chk.violation(dict(kind="foreign-ids", ids=f["ids"], got="value" if not ev.get("exc") else ev["exc"]),
                           "%s %s: authentic-looking reply with foreign %s was not skipped: call returned %s" % (info["cfg"], info["op"], f["ids"], ev.get("exc") or "the value"), dict(info=info))
             continue
-        sig = dict(body=f["pdu"], mac=f["mac"], flagAuth=f["flagAuth"], clear_under_priv=bool(has_priv and f["enc"] == "plain"),
+        sig = dict(body=f["pdu"], mac=f["mac"] if not isinstance(f["mac"], dict) else "near:" + f["mac"]["kind"], flagAuth=f["flagAuth"], clear_under_priv=bool(has_priv and f["enc"] == "plain"),
                    undecryptable=f["enc"] == "bad", required=info["verdict"], got="value" if not ev.get("exc") else ev["exc"])
         chk.violation(sig, "%s %s: reply with mac=%s flagAuth=%s msgData=%s body=%s must be %s; call returned %s" % (info["cfg"], info["op"], f["mac"], f["flagAuth"], f["enc"], f["pdu"],
                       "dropped" if info["verdict"] == "drop" else "delivered", ev.get("exc") or "the forged value"), dict(info=info))
